@@ -80,12 +80,13 @@ def install_observers():
 class Run:
     """one simulated deployment"""
 
-    def __init__(self, seed, knobs):
+    def __init__(self, seed, knobs, wipe=True):
         global CUR
         self.seam = world.setup_frontend()
         install_observers()
         world.gc_point()  # whatever the previous run left behind is finalised before this run's world exists
-        world.wipe_sse()
+        if wipe:
+            world.wipe_sse()
         world.restore_repo_state()
         world.seed_randomness(seed)
         net = knobs.get("net") or {}
